@@ -270,6 +270,9 @@ func firstDiff(a, b string) string {
 			y = fb[i]
 		}
 		if x != y {
+			if c := timeDiffClass(x, y); c != "" {
+				return c
+			}
 			n := x
 			if n == "" {
 				n = y
@@ -436,4 +439,30 @@ func balancedToks(toks []xml.Token) bool {
 		}
 	}
 	return depth == 0
+}
+
+// timeDiffClass refines the key when the differing field is an instant: the
+// same field can fail for different reasons (precision lost, offset lost).
+func timeDiffClass(x, y string) string {
+	i, j := strings.IndexByte(x, '='), strings.IndexByte(y, '=')
+	if i < 0 || j < 0 || x[:i] != y[:j] {
+		return ""
+	}
+	const layout = "2006-01-02T15:04:05.000000000Z"
+	a, err1 := time.Parse(layout, x[i+1:])
+	b, err2 := time.Parse(layout, y[j+1:])
+	if err1 != nil || err2 != nil {
+		return ""
+	}
+	d := a.Sub(b)
+	if d < 0 {
+		d = -d
+	}
+	switch {
+	case d < time.Second:
+		return x[:i] + "/subsecond"
+	case d < time.Minute:
+		return x[:i] + "/under-a-minute"
+	}
+	return x[:i] + "/instant"
 }
